@@ -122,13 +122,14 @@ ObsDtPositive == obs.pos
 ObsDtAtMostMax == obs.lemax
 ObsNonAdaptiveDtIsInit == ~Adaptive => obs.isinit
 ObsNoScreeningInducedZero == ~Screening => obs.azero
-\* "a modest multiple of the tolerance".  The exit test bounds only dA = K(J) - A of the last iteration;
-\* the stored iterate satisfies A' - K(J') = (1-beta) v_prev - (1-alpha) dA + (K(J) - K(J')), so with momentum
-\* (under-damped alpha, beta) the mismatch legitimately reaches ~5 tol (measured: default (0.1, 0.5) <= 0.8 tol;
-\* (0.5, 0.5) and (0.7, 0.3) up to 5.04 tol).  Round 0 had written 3; that demanded more than the property
-\* states (a false alarm on the unchanged tree in the thorough tier), corrected to 10.  Gross errors
-\* (dropped area factor, wrong prefactor) are >= 100 tol.
-FrameTolMultiple == 10
+\* "a modest multiple of the tolerance".  Since /repo 2699d13 the exit test measures the mismatch between the kernel
+\* output and the iterate that is returned and stored, so a stored frame reproduces the double sum over its own stored
+\* currents to the tolerance itself: measured worst case over the thorough matrix (tolerances 1e-4..1e-2, five
+\* (alpha, beta) pairs incl. under-damped (0.5, 0.5) and (0.7, 0.3), bar / barhole / ring / tee / film, m / mm / nm units)
+\* is 0.99 tol.  History: 3 (round 0), then 10 while the test was on the increment (momentum left up to 5 tol, and up
+\* to 227 tol after 5f32cc7: zero crossing with momentum, the defect repaired by 2699d13); back to 3.
+\* Gross errors (dropped area factor, wrong prefactor) are >= 100 tol.
+FrameTolMultiple == 3
 ObsFrameSelfConsistent == (obs.frame /\ Screening) => obs.mism <= FrameTolMultiple * 1000
 
 Accepted == (l = Len(T.ev) + 1 /\ pc \in {"begin", "dead"}) => PrintT(<<"ACCEPT", tid>>)
